@@ -95,6 +95,37 @@ MapArgs == {MapLit(<< <<EInt(1), EInt(5)>> >>), Lc("m")}
 \* (nor is what an indexed assignment does to a scalar-valued variable: the by-value body gets map arguments only)
 ArgsFor(body) == IF body \in ArithOnParam THEN FArgs \ MapArgs
                  ELSE IF body[1].t = "assign" /\ body[1].lhs.path # <<>> THEN MapArgs ELSE FArgs
+\* Several parameters and recursion reached from every argument position: each activation has its own parameter
+\* values ("arguments are passed by value", "recursion is supported": reference-dsl-user-defined-functions.md), also
+\* while a later argument of the same call expression is still being evaluated by a deeper activation.
+Dec(v) == Bin("-", Lc(v), EInt(1))
+Base(ret) == SIf(<<Br(Bin("<=", Lc("a"), EInt(0)), <<SRet(ret)>>)>>, <<>>)
+G2 == Func("g", <<Param("x", "var"), Param("y", "var")>>, "", <<SRet(Bin(".", Bin(".", Lc("x"), EStr(":")), Lc("y")))>>)
+G3 == Func("g", <<Param("x", "var"), Param("y", "var"), Param("z", "var")>>, "",
+           <<SRet(Bin(".", Bin(".", Bin(".", Bin(".", Lc("x"), EStr(":")), Lc("y")), EStr(":")), Lc("z")))>>)
+Rec2Progs ==
+  {<< <<G2, Func("f", <<Param("a", "var"), Param("b", "var")>>, "", <<Base(Lc("b")), SRet(Call("f", <<Dec("a"), Bin(".", Lc("b"), Lc("a"))>>))>>)>>, "ab" >>,
+   << <<G2, Func("f", <<Param("a", "var"), Param("b", "var")>>, "", <<Base(Lc("b")), SRet(Call("g", <<Lc("a"), Call("f", <<Dec("a"), Lc("b")>>)>>))>>)>>, "ab" >>,
+   << <<G2, Func("f", <<Param("a", "var"), Param("b", "var")>>, "", <<Base(Lc("b")), SRet(Call("g", <<Call("f", <<Dec("a"), Lc("b")>>), Lc("a")>>))>>)>>, "ab" >>,
+   << <<G2, Func("f", <<Param("a", "int"), Param("b", "var")>>, "", <<Base(Lc("b")), SDecl("var", "k", Lc("a")),
+            SLoc("r", Call("g", <<Bin("*", Lc("a"), EInt(10)), Call("f", <<Dec("a"), Lc("b")>>)>>)), SRet(Bin(".", Lc("k"), Lc("r")))>>)>>, "ab" >>,
+   << <<G2, Func("f", <<Param("a", "var"), Param("b", "var")>>, "",
+            <<Base(Lc("b")), SRet(Call("f", <<Dec("a"), Call("f", <<Dec("a"), Bin(".", Lc("b"), Lc("a"))>>)>>))>>)>>, "ab" >>,
+   << <<G3, Func("f", <<Param("a", "var"), Param("b", "var")>>, "", <<Base(Lc("b")), SRet(Call("g", <<Lc("a"), Lc("b"), Call("f", <<Dec("a"), Lc("a")>>)>>))>>)>>, "ab" >>,
+   << <<G3, Func("f", <<Param("a", "var"), Param("b", "var")>>, "", <<Base(Lc("b")), SRet(Call("g", <<Lc("a"), Call("f", <<Dec("a"), Lc("a")>>), Lc("b")>>))>>)>>, "ab" >>,
+   \* mutual recursion through a second function
+   << <<G2, Func("h", <<Param("p", "var"), Param("q", "var")>>, "", <<SRet(Call("g", <<Lc("p"), Call("f", <<Bin("-", Lc("p"), EInt(1)), Lc("q")>>)>>))>>),
+            Func("f", <<Param("a", "var"), Param("b", "var")>>, "", <<Base(Lc("b")), SRet(Call("h", <<Lc("a"), Lc("b")>>))>>)>>, "ab" >>,
+   \* Ackermann's function
+   << <<Func("f", <<Param("a", "int"), Param("b", "int")>>, "int",
+            <<SIf(<<Br(Bin("==", Lc("a"), EInt(0)), <<SRet(Bin("+", Lc("b"), EInt(1)))>>)>>, <<>>),
+              SIf(<<Br(Bin("==", Lc("b"), EInt(0)), <<SRet(Call("f", <<Dec("a"), EInt(1)>>))>>)>>, <<>>),
+              SRet(Call("f", <<Dec("a"), Call("f", <<Lc("a"), Dec("b")>>)>>))>>)>>, "ack" >>}
+Rec2Cases ==
+  {Case(EndOnly(pk[1], <<SDecl("var", "a", EInt(40)), SPrint(Call("f", <<EInt(n), b>>)), SPrint(Lc("a"))>>), <<>>) :
+     pk \in {x \in Rec2Progs : x[2] = "ab"}, n \in 0..3, b \in {EInt(7), EStr("s")}}
+  \cup {Case(EndOnly(pk[1], <<SPrint(Call("f", <<EInt(m), EInt(n)>>))>>), <<>>) : pk \in {x \in Rec2Progs : x[2] = "ack"}, m \in 0..2, n \in 0..2}
+
 FuncCases ==
   \* (what arithmetic on a map-valued operand gives is not documented: such combinations are left out)
   UNION {
@@ -108,6 +139,7 @@ FuncCases ==
        pt \in {"var", "int", "str"}, arg \in {EInt(3), EStr("q"), Lc("x")},
        body \in {<<SPrint(Bin("+", Lc("a"), Lc("b")))>>, <<SLoc("x", EInt(5)), SAssign(Lhs("oos", "o", <<>>), Lc("a"))>>,
                  <<SIf(<<Br(Bin("==", Lc("b"), EInt(2)), <<[t |-> "returnvoid"]>>)>>, <<>>), SPrint(EStr("unreached"))>>}}
+  \cup Rec2Cases
 
 (***************************************************************************)
 (* "loops": nested loops with break / continue at every position            *)
